@@ -4,6 +4,7 @@ CONSTANTS
   Req <- R1
   Nested <- NA
   InspOf <- IA
+  Pool <- NoPool
   Own = TRUE
 CHECK_DEADLOCK FALSE
 INVARIANT RecvMutex
